@@ -32,7 +32,8 @@ Want    == IF CutCell THEN Stop(OC) ELSE Expected(OC)
 
 \* lines of cells that were not run (skipped after confirmed blocked cells of the same group) decide nothing
 \* ... and so do the control cells whose file holds an entry over the provider's size limit (RejectOK speaks about them)
-Off == l = 0 \/ O.skipped \/ O.reject
+\* ... and the runs with an injected file fault (FaultOK speaks about them)
+Off == l = 0 \/ O.skipped \/ O.reject \/ O.fault # ""
 
 \* the recorded lines are exactly the cells of the matrix, once each
 \* ... once per file system the driver ran on (mem = afero.MemMapFs, os = afero.OsFs with real files)
@@ -41,7 +42,7 @@ Complete  == l # 0 \/ (/\ Cardinality({<<Trace[i].id, Trace[i].fs>> : i \in 1..L
                        /\ \A f \in FsModes :
                             Cardinality({i \in 1..Len(Trace) : Trace[i].id < RandBase /\ Trace[i].fs = f})
                               = Cardinality(TraceCells))
-InMatrix  == l = 0 \/ (/\ O.fs \in FsModes
+InMatrix  == l = 0 \/ (/\ O.fs \in FsModes \cup {"fault"} /\ (O.fault # "" <=> O.fs = "fault")
                        /\ O.id >= RandBase \/ (OC \in TraceCells /\ O.id = IdOf(OC)))
 \* the registered constructor accepted the config
 Built     == Off \/ O.build_err = ""
@@ -75,6 +76,35 @@ RejectOK  == l = 0 \/ O.skipped \/ ~O.reject \/
              (/\ O.run_ret /\ O.cons_done /\ O.eofs = O.nc /\ ~O.cancelled /\ O.variants = 0
               /\ \/ O.run_class = "err" /\ O.count = O.over_at /\ Want >= O.over_at
                  \/ O.run_class = "nil" /\ O.count = Want /\ Want <= O.over_at)
+\* WORK.  The provider touches its file no more than delivering needs: the number of rewinds (Seek to the start) is at
+\* most the number of passes over the file that the items it produced span, + 1 where a provider legitimately peeks
+\* (http/json looks at the first token and seeks back when it is constructed), + 1 for the rewind a provider may do
+\* at the end of a pass before it learns that nothing more is wanted.  Produced = what was taken + what was still in the
+\* sink after the cancel + the one item in the provider's hand; never more than the bound.  After the limit no further
+\* pass over the file is made - that is the "never spins" of the statement, observed as work instead of time.
+CeilDiv(a, b) == (a + b - 1) \div b
+Peek(k)     == IF k \in {"jsonline", "jsonarray"} THEN 1 ELSE 0
+RealCap(k)  == IF k \in HttpKinds THEN 0 ELSE IF k \in ScnKinds THEN 100 ELSE IF k = "grpcjson" THEN 128 ELSE 8192
+Produced    == LET got == O.count + (IF O.drained > 0 THEN O.drained ELSE 0) + 1
+               IN IF Bounded(OC) THEN Min({Expected(OC), got}) ELSE got
+EngProduced == IF Bounded(OC) THEN Expected(OC) ELSE O.eng_shots + O.nc + RealCap(O.kind) + 1
+Work      == Off \/ ~O.run_ret \/
+             (/\ O.rewinds <= CeilDiv(Produced, Entries(OC)) + Peek(O.kind)
+              /\ O.opens <= 2)
+EngWork   == Off \/ ~O.eng \/ ~O.eng_ret \/ ~O.eng_wait \/
+             (/\ O.eng_rewinds <= CeilDiv(EngProduced, Entries(OC)) + Peek(O.kind)
+              /\ O.eng_opens <= 2)
+\* FAULTS.  Whatever fails underneath (Close, the k-th Read, a rewind, Stat): either the constructor refuses, or Run
+\* returns, the sink is closed and every consumer observes ok=false (nobody stays blocked in Acquire - the hang rule),
+\* nothing beyond the bounds was delivered, and if less than the wanted amount was delivered Run says so with an error.
+FaultOK   == l = 0 \/ O.skipped \/ O.fault = "" \/ O.build_err # "" \/
+             (/\ O.run_ret /\ O.cons_done
+              /\ O.run_class \in {"nil", "err"} \cup (IF CutCell THEN {"ctx"} ELSE {})
+              /\ IF O.cancelled THEN O.eof_after ELSE O.eofs = O.nc
+              /\ O.count <= Want
+              /\ Bounded(OC) => O.count + (IF O.drained > 0 THEN O.drained ELSE 0) <= Expected(OC)
+              /\ O.count = Want \/ O.run_class = "err"
+              /\ O.unknown = 0 /\ O.variants = 0)
 FdSlack   == 16
 NoFdLeak  == Off \/ O.fds0 < 0 \/ O.fds <= O.fds0 + FdSlack
 =============================================================================
